@@ -179,6 +179,82 @@ pub fn probe_input(idx: u64) -> Option<(String, String)> {
     Some((format!("deep nesting {name} depth={d}"), text))
 }
 
+/// replace some tokens between `/begin IF_DATA` and `/end IF_DATA` (white-space separated words and
+/// quoted strings) by hostile ones; everything else stays as generated
+fn mutate_ifdata_tokens(rng: &mut Rng, text: &str) -> String {
+    const CHARS: [&str; 10] = ["a", "Z", "ö", "é", "€", "本", "😀", "\\\"", "\"\"", " "];
+    const WORDS: [&str; 22] = [
+        "0", "-1", "255", "256", "65536", "4294967296", "18446744073709551616", "-9223372036854775809", "0xFFFFFFFFFFFFFFFFF", "0x",
+        "1e39", "-1e39", "1e999", "1.5", ".", "/begin", "/end", "IF_DATA", "x", "\"\"", "/* c */", "\"ä\"",
+    ];
+    let mut out = String::with_capacity(text.len() + 64);
+    let mut rest = text;
+    while let Some(at) = rest.find("/begin IF_DATA") {
+        let head_end = at + "/begin IF_DATA".len();
+        out.push_str(&rest[..head_end]);
+        rest = &rest[head_end..];
+        let end = rest.find("/end IF_DATA").unwrap_or(rest.len());
+        let body = &rest[..end];
+        rest = &rest[end..];
+        // split the body into words and quoted strings
+        let b = body.as_bytes();
+        let mut i = 0;
+        while i < b.len() {
+            if b[i].is_ascii_whitespace() {
+                out.push(b[i] as char);
+                i += 1;
+                continue;
+            }
+            let st = i;
+            if b[i] == b'"' {
+                i += 1;
+                while i < b.len() {
+                    if b[i] == b'\\' {
+                        i += 2;
+                        continue;
+                    }
+                    if b[i] == b'"' {
+                        if i + 1 < b.len() && b[i + 1] == b'"' {
+                            i += 2;
+                            continue;
+                        }
+                        i += 1;
+                        break;
+                    }
+                    i += 1;
+                }
+                i = i.min(b.len());
+                while !body.is_char_boundary(i) {
+                    i += 1;
+                }
+                if rng.chance(1, 2) {
+                    // a string of 0..40 pieces, multi-byte characters at arbitrary byte offsets
+                    out.push('"');
+                    for _ in 0..rng.below(41) {
+                        out.push_str(CHARS[rng.below(CHARS.len())]);
+                    }
+                    out.push('"');
+                } else {
+                    out.push_str(&body[st..i]);
+                }
+            } else {
+                while i < b.len() && !b[i].is_ascii_whitespace() {
+                    i += 1;
+                }
+                if rng.chance(1, 6) {
+                    out.push_str(WORDS[rng.below(WORDS.len())]);
+                } else if rng.chance(1, 30) {
+                    // dropped
+                } else {
+                    out.push_str(&body[st..i]);
+                }
+            }
+        }
+    }
+    out.push_str(rest);
+    out
+}
+
 pub fn run(args: &Args, rec: &mut Recorder) {
     rec.rule = "evaluation = one load call (load_from_string / load_fragment / load from a temp file) of a hostile input under the crash monitor, the logical step budget (64*bytes+600000 steps counted by the verif_hooks feature) and the allocation-peak monitor; distinct_nontrivial = distinct inputs by content hash that are not empty".into();
     rec.assumptions.push("inputs up to 64 KiB (nesting probes up to 1.5 MiB); nesting depth <= 64 in random inputs, dedicated probes at depth 256..65536; 8 MiB stack".into());
@@ -238,6 +314,62 @@ pub fn run(args: &Args, rec: &mut Recorder) {
                 );
             }
             let _ = std::fs::remove_dir_all(&root);
+            return None;
+        }
+        if case % 64 == 37 && case / 64 < 10 {
+            // a chain of include files, each including the next: /include directives of A2L files
+            // (even index) or `/include` inside the A2ML block (odd index)
+            let k = (case / 64) as usize;
+            let depth = [4usize, 64, 300, 1000, 20000][k / 2];
+            let a2ml = k % 2 == 1;
+            let root = scratch.join(format!("c03chain_{case}"));
+            let _ = std::fs::remove_dir_all(&root);
+            std::fs::create_dir_all(&root).unwrap();
+            let main_text = if a2ml {
+                "ASAP2_VERSION 1 71\n/begin PROJECT p \"\"\n/begin MODULE m \"\"\n/begin A2ML\n/include c0.aml\n/end A2ML\n/end MODULE\n/end PROJECT\n".to_string()
+            } else {
+                "ASAP2_VERSION 1 71\n/begin PROJECT p \"\"\n/begin MODULE m \"\"\n/include c0.a2l\n/end MODULE\n/end PROJECT\n".to_string()
+            };
+            for d in 0..depth {
+                let (name, body) = if a2ml {
+                    (format!("c{d}.aml"), if d + 1 < depth { format!("/include c{}.aml\n", d + 1) } else { "block \"IF_DATA\" struct { int; };\n".to_string() })
+                } else {
+                    (
+                        format!("c{d}.a2l"),
+                        if d + 1 < depth { format!("/begin UNIT u{d} \"\" \"\" DERIVED /end UNIT\n/include c{}.a2l\n", d + 1) } else { format!("/begin UNIT u{d} \"\" \"\" DERIVED /end UNIT\n") },
+                    )
+                };
+                std::fs::write(root.join(name), body).unwrap();
+            }
+            let main = root.join("main.a2l");
+            std::fs::write(&main, &main_text).unwrap();
+            rec.eval();
+            let label = format!("include chain {} depth={depth}", if a2ml { "a2ml" } else { "a2l" });
+            rec.label(&label);
+            rec.bump("gen.include_chain");
+            rec.nontrivial(label.as_bytes());
+            let strict = rng.coin();
+            crate::util::set_budget(50_000_000);
+            let r = guarded(|| a2lfile::load(&main, None, strict).map(|_| ()));
+            crate::util::reset_budget();
+            if let Err((sig, detail)) = r {
+                rec.violation(&sig, &detail, Json::obj().with("generator", Json::s(&label)).with("strict", Json::Bool(strict)));
+            }
+            let _ = std::fs::remove_dir_all(&root);
+            return None;
+        }
+        if case % 64 == 23 || case % 64 == 55 {
+            // a well-formed A2ML definition from the G-a2ml generator with IF_DATA that almost
+            // conforms: the conforming instances of the document are mutated token by token
+            // (over-long strings with multi-byte characters at every byte offset, extreme numbers,
+            // wrong kinds, stray /begin and /end)
+            let (text, _flat, _n) = crate::c18::gen_conforming_document(rng);
+            let mutated = mutate_ifdata_tokens(rng, &text);
+            rec.bump("gen.a2ml_instance_mutation");
+            for strict in [false, true] {
+                monitored_load(rec, "a2ml_instance_mutation", mutated.as_bytes(), strict, "none", "string", &scratch);
+            }
+            rec.nontrivial(mutated.as_bytes());
             return None;
         }
         if case % 64 == 9 {
